@@ -1346,6 +1346,59 @@ fn api_cmd(args: &[String]) {
             }
         }
     }
+    // ---- T5: a glyph deleted by an earlier lookup (MultipleSubst with an empty sequence) hands its cluster to a neighbour;
+    //      the neighbour keeps ITS OWN feature values (the value of the cluster its character was entered with), in both
+    //      directions (a run shaped against its script's direction holds descending clusters: the merge goes backward)
+    {
+        use crate::fontgen::*;
+        let mut spec = FontSpec::basic(12);
+        let del = Lookup::one(SubstSubtable::Multiple { coverage: Coverage::Glyphs(vec![3]), sequences: vec![vec![]] });
+        let alt = Lookup::one(SubstSubtable::Alternate { coverage: Coverage::Glyphs(vec![1, 2]), alternates: vec![vec![4, 5, 6], vec![7, 8, 9]] });
+        spec.gsub = Some(Layout::with_features(vec![(*b"ccmp", vec![0]), (*b"salt", vec![1])], vec![del, alt]));
+        let data = build(&spec);
+        let face_g = Face::from_slice(&data, 0).expect("font G parses");
+        let tag = rustybuzz::ttf_parser::Tag::from_bytes(b"salt");
+        for k in 0..(nrand / 4).max(300) {
+            let n = 2 + r.below(5) as usize;
+            // glyph 3 (deleted) often, so that it sits first, last and between survivors
+            let gl: Vec<u32> = (0..n).map(|_| if r.chance(2, 5) { 3 } else { 1 + r.below(2) as u32 }).collect();
+            let vals: Vec<u32> = (0..n).map(|_| r.below(5) as u32).collect();
+            let feats: Vec<Feature> = (0..n).map(|i| Feature { tag, value: vals[i], start: i as u32, end: i as u32 + 1 }).collect();
+            let dir = if k % 2 == 0 { Direction::LeftToRight } else { Direction::RightToLeft };
+            let level = if (k / 2) % 2 == 0 { rustybuzz::BufferClusterLevel::MonotoneGraphemes } else { rustybuzz::BufferClusterLevel::MonotoneCharacters };
+            let mut b = UnicodeBuffer::new();
+            for (i, g) in gl.iter().enumerate() {
+                b.add(char::from_u32(BASE_CP + g - 1).unwrap(), i as u32);
+            }
+            b.set_direction(dir);
+            b.set_script(rustybuzz::script::LATIN);
+            b.set_cluster_level(level);
+            st.evals += 1;
+            let f2 = &face_g;
+            let fs = feats.clone();
+            let out = match catch(std::panic::AssertUnwindSafe(move || { let gb = rustybuzz::shape(f2, &fs, b); gb.glyph_infos().iter().map(|i| i.glyph_id).collect::<Vec<_>>() })) {
+                Ok(o) => o,
+                Err(e) => {
+                    st.bad += 1;
+                    println!("fail kind=shape-panic:{} font=G text={:?}", e, gl);
+                    continue;
+                }
+            };
+            let mut want: Vec<u32> = gl.iter().zip(vals.iter()).filter(|(g, _)| **g != 3).map(|(g, v)| if (1..=3).contains(v) { 4 + 3 * (*g - 1) + (*v - 1) } else { *g }).collect();
+            if dir == Direction::RightToLeft {
+                want.reverse();
+            }
+            if gl.contains(&3) && vals.iter().any(|v| *v != vals[0]) {
+                st.nontrivial += 1;
+            }
+            if out != want {
+                st.bad += 1;
+                if st.bad <= max_report {
+                    println!("fail kind=range-value-predicate font=G text={:?} dir={:?} feats={} expected={:?} got={:?}", gl, dir, feats.iter().map(fmt_feature).collect::<Vec<_>>().join(";"), want, out);
+                }
+            }
+        }
+    }
     println!("api-summary evaluations={} nontrivial={} bad={} t1={} t2={}", st.evals, st.nontrivial, st.bad, t1, st.evals - t1);
 }
 
